@@ -222,13 +222,13 @@ func genQuoted(r *common.Rand, allowBad bool) string {
 var indents = []string{"", " ", "  ", "    ", "\t", "\t\t", " \t", "\t ", "      "}
 var lineEnds = []string{"\n", "\n", "\n", "\r\n", "\r"}
 var blockPieces = []string{"a", "text", "x y", `\`, `\\`, `\n`, `\u0041`, "\xc3\xa9", "\U0001F600", "\xe2\x80\xa8", "\xe2\x80\xa9", "\x01", "\x7f", "\x1f",
-	"<b>&", "#", "  ", "\t", "'", "x`+"`"+`y", "q\"q", "a\"\"b"}
+	"<b>&", "#", "  ", "\t", "'", "x`y", "q\"q", "a\"\"b"}
 var blockQuirks = []string{`\"""`, `"`, `""`, " \" ", "\" ", " \"", `\"`}
 
 func genBlockLine(r *common.Rand, quirky bool) string {
 	var sb strings.Builder
 	sb.WriteString(common.PickOf(r, indents))
-	n := r.Pick(4)
+	n := 1 + r.Pick(3)
 	for i := 0; i < n; i++ {
 		if quirky && r.Chance(1, 3) {
 			sb.WriteString(common.PickOf(r, blockQuirks))
